@@ -132,6 +132,7 @@ type Anchors struct {
 	BodyClosure                        *FuncBody // literal handed to the dedup function by RunTask
 	DedupCall                          *ast.CallExpr
 	DeferRunner                        *FuncBody
+	ShellExec                          *FuncBody // the function of the command runner's group that calls execext.RunCommand for a cmds entry (the command runner itself, or the helper it hands the shell execution to)
 	BodyTail                           []*FuncBody // functions of the package the body closure hands its command loop to
 	LoopFn                             *FuncBody   // the function that contains the cmds loop: the body closure, or its tail
 	semParams                          map[*types.Var]bool
@@ -366,6 +367,92 @@ func ResolveAnchors(p *Prog) *Anchors {
 			}
 		}
 		a.need("task body closure (literal func(context.Context) error handed by RunTask to the dedup function)", a.BodyClosure)
+	}
+	// the command runner is the function the cmds loop hands each entry to: the first guess (the function that passes Cmd.Cmd
+	// to execext.RunCommand) is a helper of it when the shell execution was split off. Re-derive it from the call site: in the
+	// task body (or the package function it hands its loop to) the callee, inside a loop over Task.Cmds, that reaches
+	// execext.RunCommand through package functions
+	if a.BodyClosure != nil && a.RunCommandObj != nil {
+		reachesRC := func(fb *FuncBody) bool {
+			for g := range p.ReachableFrom([]*FuncBody{fb}, func(x *FuncBody) bool { return x.Pkg.PkgPath != PkgTask || x == a.RunTask }) {
+				for _, call := range callsIn(g, true) {
+					if callee(g.Info(), call) == a.RunCommandObj {
+						return true
+					}
+				}
+			}
+			return false
+		}
+		cands := []*FuncBody{a.BodyClosure}
+		for _, call := range callsIn(a.BodyClosure, false) {
+			if fn, ok := callee(a.BodyClosure.Info(), call).(*types.Func); ok {
+				if h := p.DeclOf(fn); h != nil && h.Decl != nil && h.Pkg.PkgPath == PkgTask && h != a.RunTask && h != a.DepRunner {
+					cands = append(cands, h)
+				}
+			}
+		}
+		var found *FuncBody
+		for _, cb := range cands {
+			cinfo := cb.Info()
+			inspectBody(cb.Body, func(n ast.Node) bool {
+				var body *ast.BlockStmt
+				overCmds := false
+				switch x := n.(type) {
+				case *ast.RangeStmt:
+					body = x.Body
+					overCmds = fieldSel(cinfo, x.X, PkgAst, "Task", "Cmds")
+				case *ast.ForStmt:
+					body = x.Body
+					if x.Cond != nil {
+						ast.Inspect(x.Cond, func(m ast.Node) bool {
+							if sel, ok := m.(*ast.SelectorExpr); ok && fieldSel(cinfo, sel, PkgAst, "Task", "Cmds") {
+								overCmds = true
+							}
+							return true
+						})
+					}
+				}
+				if body == nil || !overCmds || found != nil {
+					return true
+				}
+				pm := parentMap(body)
+				inspectBody(body, func(m ast.Node) bool {
+					call, ok := m.(*ast.CallExpr)
+					if !ok || found != nil {
+						return true
+					}
+					if _, isDefer := pm[call].(*ast.DeferStmt); isDefer {
+						return true
+					}
+					if fn, ok := callee(cinfo, call).(*types.Func); ok {
+						if h := p.DeclOf(fn); h != nil && h.Decl != nil && h.Pkg.PkgPath == PkgTask && h != a.RunTask && reachesRC(h) {
+							found = h
+						}
+					}
+					return true
+				})
+				return true
+			})
+		}
+		if found != nil {
+			a.CmdRunner = found
+		}
+	}
+	// the shell executor: the command runner, or the helper of the package (depth <= 2) it calls that holds the RunCommand call
+	if a.CmdRunner != nil && a.RunCommandObj != nil {
+		for _, g := range p.groupOf(a.CmdRunner, 2) {
+			if g.Pkg.PkgPath != PkgTask || g == a.RunTask || g.Decl == nil {
+				continue
+			}
+			for _, call := range callsIn(g, true) {
+				if callee(g.Info(), call) == a.RunCommandObj && a.ShellExec == nil {
+					a.ShellExec = g
+				}
+			}
+		}
+		if a.ShellExec == nil {
+			a.ShellExec = a.CmdRunner
+		}
 	}
 	a.computeReachCmd()
 	// deferred-command runner: callee of a defer in the task body that reaches the command runner. The task body is the
